@@ -1,54 +1,1 @@
-(* GENERATED by /verif/translator/gen.py from rodbus/src/tcp/tls/mod.rs, rodbus/src/tcp/tls/server.rs, rodbus/src/tcp/tls/client.rs, ffi/rodbus-ffi/src/client.rs, ffi/rodbus-ffi/src/server.rs, ffi/rodbus-ffi/src/helpers/conversions.rs -- do not edit *)
-From Coq Require Import NArith List String.
-Import ListNotations.
-Local Open Scope N_scope.
-
-(* tcp/tls/mod.rs: enum CertificateMode *)
-Inductive certificate_mode := AuthorityBased | SelfSigned.
-(* which sfio_rustls_config constructor builds the verifier *)
-Inductive sfio_ctor := SfioAuthority | SfioSelfSigned.
-(* its name-verification argument (NoNameArg: the constructor has none) *)
-Inductive name_arg := NoNameArg | ClientNameNone | ServerSanOrCommonName | ServerSanExtOnly | ServerNameDisabled.
-(* (constructor, name argument, versions argument is the configured minimum passed through .into()) *)
-Definition ctor_use : Type := sfio_ctor * name_arg * bool.
-
-(* tcp/tls/server.rs: TlsServerConfig::new *)
-Definition server_new (m : certificate_mode) : ctor_use :=
-  match m with
-  | AuthorityBased => (SfioAuthority, ClientNameNone, true)
-  | SelfSigned => (SfioSelfSigned, NoNameArg, true)
-  end.
-
-(* tcp/tls/client.rs: TlsClientConfig::full_pki; argument = "a server subject name was given" *)
-Definition client_full_pki (name_given : bool) : ctor_use :=
-  if name_given then (SfioAuthority, ServerSanOrCommonName, true) else (SfioAuthority, ServerNameDisabled, true).
-
-(* tcp/tls/client.rs: TlsClientConfig::self_signed *)
-Definition client_self_signed : ctor_use := (SfioSelfSigned, NoNameArg, true).
-
-(* tcp/tls/client.rs: handle_connection passes the configured server name to the connector *)
-Definition client_connects_with_configured_name : bool := true.
-
-(* tcp/tls/client.rs: deprecated TlsClientConfig::new (always carries a server name) *)
-Definition client_new (m : certificate_mode) : ctor_use :=
-  match m with
-  | AuthorityBased => client_full_pki true
-  | SelfSigned => client_self_signed
-  end.
-
-(* ffi/rodbus-ffi/src/helpers/conversions.rs: (C ABI variant name, Rust variant) *)
-Definition ffi_min_tls_version : list (string * string) := [("V12"%string, "V1_2"%string); ("V13"%string, "V1_3"%string)].
-Definition ffi_certificate_mode : list (string * string) := [("AuthorityBased"%string, "AuthorityBased"%string); ("SelfSigned"%string, "SelfSigned"%string)].
-
-(* ffi/rodbus-ffi/src/client.rs: TryFrom<ffi::TlsClientConfig>; name_given = not (allow_server_name_wildcard && name = "*") *)
-Definition ffi_client (m : certificate_mode) (name_given : bool) : ctor_use * bool (* min version forwarded *) :=
-  match m with
-  | AuthorityBased => (client_full_pki name_given, true)
-  | SelfSigned => (client_self_signed, true)
-  end.
-
-(* ffi/rodbus-ffi/src/server.rs: server_create_tls_impl *)
-Definition ffi_server_forwards_min_version : bool := true.
-Definition ffi_server_forwards_certificate_mode : bool := true.
-Definition ffi_server_with_authz_handler_spawns : string := "spawn_tls_server_task_with_authz"%string.
-Definition ffi_server_without_authz_handler_spawns : string := "spawn_tls_server_task"%string.
+(* GENERATED stub: translator could not parse the source: TlsClientConfig::new: min_tls_version not forwarded to self_signed *)
